@@ -129,7 +129,9 @@ def expect_arg(a, ttf, feats):
             if all(0 <= x <= 255 for x in a):
                 feats.add('midi')
                 return ('m', tuple(int(x) for x in a))
-            raise MustRefuse('midi-byte-out-of-range')
+            # 4-tuples ('m', a MIDI extension) are not in the property's
+            # argument domain: no verdict, the check only counts what it sees
+            raise Undecided('midi-byte-out-of-range')
         raise MustRefuse('unsupported-type')
     raise MustRefuse('unsupported-type')
 
